@@ -30,7 +30,9 @@ def run(facts, tr, rep):
         return
     # ---------------------------------------------------------------- BOUND
     rep.floor("C15.window-states", len(rl.windows), 3)
-    for W in rl.windows:
+    facts0, tr0 = facts, tr
+    facts, tr = facts.inl, tr.inl           # BOUND is local to each window state: analysed with its private helpers inlined
+    for W in [facts.bodies[w.def_] for w in rl.windows]:
         rep.saw(W)
         g = graph(W)
         n = 0
@@ -68,6 +70,7 @@ def run(facts, tr, rep):
                    "a wait is answered only under wait <= timeout_duration" if ok else
                    "a wait longer than timeout_duration can be answered as Ok(wait): the caller would be held beyond its timeout")
         rep.floor("C15.ok-wait-returns:" + W.def_.split("::")[-2], n, 1)
+    facts, tr = facts0, tr0
     # ---------------------------------------------------------------- ONE-SLEEP
     A = rl.acquire
     rep.saw(A)
